@@ -767,7 +767,7 @@ def run_mc_oneshot(rep, binp, configs):
     import concurrent.futures
     t = time.time()
     with concurrent.futures.ThreadPoolExecutor(max_workers=8) as ex:
-        futs = [ex.submit(mc_run, 'MC_OneShot', cfg, ('NoViolation',), (), None, 1, 3000, True, '4g') for cfg in configs]
+        futs = [ex.submit(mc_run, 'MC_OneShot', cfg, ('NoViolation', 'ForBomOK'), (), None, 1, 3000, True, '4g') for cfg in configs]
         runs = [f.result() for f in futs]
     log('TLC model checking of %d configurations of MC_OneShot in %.1fs' % (len(configs), time.time() - t))
     outdir = '%s/%s/mcreplay_MC_OneShot' % (RUN, rep.prop)
